@@ -21,7 +21,7 @@ def class_table():
     from discopy import monoidal, rigid, tensor
     from discopy.quantum import circuit, zx
     from discopy.quantum.circuit import qubit, bit
-    names = "abcdefgh"
+    names = "abcdefghijklmnopqrstuvwx"
 
     def mono(n, var):
         return monoidal.Ty(*[names[k] if var == 0 else names[k % 2] for k in range(n)])
